@@ -44,6 +44,14 @@ func (P) Gen(r *core.Rand, tier string, emit func([]string)) {
 			specs = append(specs, s)
 			core.Count("msg:" + s.Class())
 			mode := "p"
+			if r.Chance(1, 4) {
+				// struct fields that disagree with same-named keys of the header map (a modifier
+				// changed the field after the message was parsed)
+				if label, m := msggen.Disagree(r, a); label != "" {
+					mode = m
+					core.Count("disagree:" + label)
+				}
+			}
 			spec := c15.HarSpec(r)
 			if req {
 				ps := ParamsTok(wantParams(s))
